@@ -362,7 +362,13 @@ class Interp:
         desc = []
         for pid in pids:
             desc.extend(c.pid for c in k.descendants_by_origin(pid))
+        sched = rt.RT.sched
         return dict(dt=round(rt.RT.sched.now - t0, 6), mgr_alive=bool(mgr is not None and mgr.is_alive()),
+                    # process-wide view (decisive when the program has a single executor): a manager thread or a
+                    # worker the bookkeeping above has not seen yet, e.g. started by a racing first submit()
+                    any_mgr_alive=any(t.role == "manager" and t.proc.pid == 100 and t.state != sk.DONE for t in sched.tasks),
+                    any_workers_alive=sorted(p.pid for p in k.procs.values()
+                                             if p.role == "worker" and p.orig_ppid == 100 and p.alive),
                     workers_alive=[p for p in pids if k.procs[p].alive],
                     desc_alive=[p for p in desc if k.procs[p].alive],
                     zombies=[p for p in pids if not k.procs[p].alive and not k.procs[p].reaped],
